@@ -2013,10 +2013,21 @@ class Engine:
         st.env[stmt.name] = UserFn(self.frame.mod, self.frame.qual + '.<locals>.' + stmt.name, stmt, None, st.env)
         return [(st, ('normal',))]
 
+    def truth_in(self, v, st, node):
+        """truth(v) for a value whose class defines __bool__ (or __len__): the real method is executed (merged)."""
+        if isinstance(v, (Ref, Rec)):
+            for m in ('__bool__', '__len__'):
+                ent = self.find_method(v.cls, m)
+                if ent and ent[2] is not None:
+                    rs = self.inline_call(UserFn(ent[0], ent[1], ent[2], v), [], {}, st, node, merge=True)
+                    r = rs[0][1]
+                    return self.truth(r) if m == '__bool__' else num_cmp('>', r, 0)
+        return self.truth(v)
+
     def st_If(self, stmt, st):
         out = []
         for s, c in self.ev(stmt.test, st):
-            t = simp(self.truth(c))
+            t = simp(self.truth_in(c, s, stmt))
             if t is True:
                 out += self.exec_block(stmt.body, s)
             elif t is False:
